@@ -488,6 +488,9 @@ func genC13(r *Rnd, t Tier) *Case {
 	if r.P(0.35) {
 		p.MaxDuration = time.Duration(r.Range(10, 300)) * unit
 	}
+	if p.DelayKind != DelayNone && r.P(0.2) {
+		p.PreReplaced = true // the builder first got a backoff and a random delay, both replaced by the configuration above
+	}
 	sc.Policies = []PolicySpec{p}
 	sc.Stacks = [][]int{{0}}
 	var s Script
